@@ -36,7 +36,7 @@ type c13Case struct {
 var c13Ops = []string{
 	"commit", "multiprove", "multiprove_shared_index", "multiverify", "multiverify_bad", "ipaprove", "ipaverify", "ipaverify_bad",
 	"multiscalar_srs", "multiexp", "multiexp_regular", "elem_codec", "batch_codec", "fr_decode", "batchinvert", "bary", "divide", "innerprod",
-	"transcript", "group_ops_on_config", "proof_serde", "proof_read_into_copy", "batchnormalize", "msm_short", "noise", "noise",
+	"transcript", "group_ops_on_config", "proof_serde", "proof_read_into_copy", "readpoint_receiver", "batchnormalize", "msm_short", "noise", "noise",
 }
 
 func genC13(t *rapid.T) c13Case {
@@ -379,6 +379,10 @@ type c13Env struct {
 	lastIPAY  fr.Element
 }
 
+func poolElemBytes(seed uint64) [32]byte {
+	return hx.G.Compress(hx.G.Mul(hx.G.CRS()[seed%256], hx.ExpandFr(seed, "c13pe", 0)))
+}
+
 func poolElem(seed uint64) banderwagon.Element {
 	p := hx.G.Mul(hx.G.CRS()[seed%256], hx.ExpandFr(seed, "c13pe", 0))
 	return hx.ToImpl(hx.Rep(p, int(seed>>8)%4, seed))
@@ -567,6 +571,12 @@ func doCall(env *c13Env, c pcall, rec *hx.Rec) error {
 		mont := c.Op != "multiexp_regular" && !(c.Op == "msm_short" && c.Flag)
 		for i := range pts {
 			pts[i] = poolElem(c.Seed + uint64(i))
+			if c.N%3 == 1 && i%3 == 0 { // identity points in front of / between ordinary ones (both representatives)
+				pts[i] = banderwagon.Identity
+				if i%2 == 1 {
+					pts[i] = hx.ToImpl(hx.Rep(hx.G.Identity(), 3, c.Seed))
+				}
+			}
 			v := hx.ExpandFr(c.Seed, "c13sc", i)
 			if i%4 == 0 {
 				v = big.NewInt(int64(i + 1)) // small scalars: first-chunk split path
@@ -593,6 +603,31 @@ func doCall(env *c13Env, c pcall, rec *hx.Rec) error {
 			if e != zeroFr {
 				return fail("MultiExp wrote behind the end of the scalars slice")
 			}
+		}
+	case "readpoint_receiver":
+		// what a decoder returns belongs to the caller: it is used as the receiver of in-place operations afterwards. The
+		// shared state (package-level Identity / Generator included) is fingerprinted after the call by the history loop.
+		encs := [][32]byte{{}, banderwagon.Generator.Bytes(), poolElemBytes(c.Seed)}
+		enc := encs[c.K%3]
+		p, err := common.ReadPoint(bytes.NewReader(enc[:]))
+		if err != nil || p == nil {
+			return fail("ReadPoint of a valid encoding failed: %v", err)
+		}
+		x := poolElem(c.Seed + 1)
+		p.Add(p, &x)
+		p.Double(p)
+		var q banderwagon.Element
+		if err := q.SetBytes(enc[:]); err != nil {
+			return fail("SetBytes of a valid encoding failed: %v", err)
+		}
+		q.Add(&q, &x)
+		q.SetIdentity()
+		p2, err := common.ReadPoint(bytes.NewReader(enc[:]))
+		if err != nil || p2 == nil {
+			return fail("second ReadPoint failed: %v", err)
+		}
+		if got := p2.Bytes(); got != enc {
+			return fail("decoding %x a second time, after the first result was used as a receiver, gives an element encoding to %x", enc, got)
 		}
 	case "elem_codec":
 		e := poolElem(c.Seed)
